@@ -33,6 +33,13 @@ int vchild_run(const char *sockpath, const char *flags, const char *tag,
                const char *snap, int argc, char **argv);
 
 #define NH 4
+#ifdef VERIF_COV
+void __gcov_dump(void);
+#define COV_DUMP() __gcov_dump()
+#else
+#define COV_DUMP() ((void) 0)
+#endif
+
 static int HIGHFD = 200;  // harness descriptors live at [HIGHFD, hard limit - 2]
 static rlim_t g_hard_nofile;
 
@@ -80,7 +87,7 @@ typedef struct {
   // expected content per parent-visible pipe
   struct { unsigned s; uint64_t start, len; } seg[3][512];
   int nseg[3];
-  int text, lazy_accept;
+  int text, lazy_accept, want_ident;
   FILE *sfile;
   char dir[700];
   FILE *files[3];
@@ -311,6 +318,7 @@ static int64_t sched_next(void)
 }
 
 static int accept_child(child_t *c);
+static void request_ident(child_t *c);
 static int in_sched;
 static int sched_run(int64_t upto)
 {
@@ -321,7 +329,7 @@ static int sched_run(int64_t upto)
     if (C[h].used && C[h].lazy_accept && C[h].csock < 0 && C[h].lsock >= 0 && !w_in_start &&
         W->nchild > C[h].lazy_accept - 1) {
       C[h].lazy_accept = 0;
-      accept_child(&C[h]);
+      if (accept_child(&C[h]) == 0 && C[h].want_ident) request_ident(&C[h]);
     }
   for (;;) {
     // earliest runnable item (program-order head or async signal) with t <= upto
@@ -382,6 +390,7 @@ static void on_hang(const char *what)
   jtrace();
   fprintf(L, "}\n");
   finish_case();
+  COV_DUMP();
   _exit(0);
 }
 
@@ -778,12 +787,23 @@ static void do_runex(int h, child_t *c, const char **argv, reproc_options o, con
   g_sinklen = 0;
   if (g_sinkbuf) g_sinkbuf[0] = 0;
   g_in_sinkcalls = 1;
-  int r = reproc_run_ex(argv, o, ss.sk[0], ss.sk[1]);
+  // runex=plain: reproc_run (no sinks; its own default for the redirect shorthands)
+  int r = strcmp(spec, "plain") == 0 ? reproc_run(argv, o) : reproc_run_ex(argv, o, ss.sk[0], ss.sk[1]);
   g_in_sinkcalls = 0;
   fprintf(L, "{\"i\":%d,\"sinkcalls\":[%s]}\n", g_opidx, g_sinkbuf ? g_sinkbuf : "");
   char sres[200];
   sinks_result(&ss, c, sres, sizeof sres);
-  op_end_fmt(r, "\"strs\":[%s],\"pid\":%d", sres, c->pid);
+  char stds[200] = "";
+  for (int fd = 0; fd < 3; fd++) {
+    struct stat st;
+    char b[64];
+    if (fstat(fd, &st) == 0) {
+      snprintf(b, sizeof b, "%s[%d,%llu,%llu]", stds[0] ? "," : "", fd, (unsigned long long) st.st_dev,
+               (unsigned long long) st.st_ino);
+      strcat(stds, b);
+    }
+  }
+  op_end_fmt(r, "\"strs\":[%s],\"pid\":%d,\"std\":[%s]", sres, c->pid, stds);
 }
 static void setup_child_dir(child_t *c, int h, const char *flags)
 {
@@ -1037,10 +1057,12 @@ static void do_start(int h)
     o.redirect.file = c->sfile;
   }
   // effective types for bookkeeping (documented defaults)
+  int plain_parent = runex && !strcmp(runex, "plain") && !o.redirect.discard && !o.redirect.file &&
+                     !o.redirect.path;
   for (int s = 0; s < 3; s++) {
     int ty = rd[s]->type;
     if (ty == REPROC_REDIRECT_DEFAULT) {
-      if (o.redirect.parent) ty = REPROC_REDIRECT_PARENT;
+      if (o.redirect.parent || plain_parent) ty = REPROC_REDIRECT_PARENT;
       else if (o.redirect.discard) ty = REPROC_REDIRECT_DISCARD;
       else ty = s == 2 ? REPROC_REDIRECT_PARENT : REPROC_REDIRECT_PIPE;
     }
@@ -1100,6 +1122,7 @@ static void do_start(int h)
   }
   if (envx) o.env.extra = (const char *const *) unhex_list(envx, 0, NULL);
 
+  c->want_ident = want_ident;
   if (runex) {
     // RN: reproc_run_ex(argv, options, sinks): runex=<outsink>,<errsink> (d | s<pre> | c | c<k>:<ret>)
     do_runex(h, c, argv, o, runex);
@@ -1660,9 +1683,10 @@ static void finish_case(void)
   w_cur_op = -1;
   fprintf(L, "{\"fin\":1,\"vt\":%lld,\"hang\":%d,\"badtarget\":%d,\"foreign_close\":%d,"
              "\"double_close\":%d,\"unknown_free\":%d,\"live_allocs\":%d,\"overflow\":%u,"
-             "\"inchild_done\":%d,\"ntr\":%u,",
+             "\"inchild_done\":%d,\"ntr\":%u,\"runaway\":\"%s\",",
           (long long) w_vnow, g_hang, W->n_badtarget, W->n_foreign_close, W->n_double_close,
-          W->n_unknown_free, wrap_live_allocs(), W->overflow, W->inchild_done, W->ntr);
+          W->n_unknown_free, wrap_live_allocs(), W->overflow, W->inchild_done, W->ntr,
+          W->runaway ? wfn_name[W->runaway - 1] : "");
   int fds[64];
   int n = wrap_owned_fds(fds, 64);
   fprintf(L, "\"owned_fds\":[");
@@ -1827,6 +1851,7 @@ int main(int argc, char **argv)
     fflush(stdout);
     pid_t r = fork();
     if (r == 0) {
+      setpgid(0, 0);  // the case and everything the library forks in it: one group, swept afterwards
       int lfd = open(lp, O_WRONLY | O_CREAT | O_TRUNC | O_CLOEXEC, 0644);
       lfd = move_high(lfd);
       int efd = open(ep, O_WRONLY | O_CREAT | O_TRUNC, 0644);
@@ -1837,8 +1862,10 @@ int main(int argc, char **argv)
       if (nul > 2) close(nul);
       if (efd > 2) close(efd);
       run_case(script, lfd);
+      COV_DUMP();
       _exit(0);
     }
+    if (r > 1) setpgid(r, r);
     // watchdog
     int status = 0, waited = 0;
     for (;;) {
@@ -1853,6 +1880,9 @@ int main(int argc, char **argv)
         break;
       }
     }
+    // a child the library forked and lost track of (stuck before exec, abandoned after a timeout)
+    // shares the trace area with the next case and burns CPU: none may outlive its case
+    if (r > 1) kill(-r, SIGKILL);
     printf("BEGIN %s\n", id);
     FILE *f = fopen(lp, "r");
     if (f) {
